@@ -7,7 +7,6 @@ use winnow::token::any;
 use winnow::token::take_while;
 
 use crate::key::Key;
-use crate::parser::error::CustomError;
 use crate::parser::prelude::*;
 use crate::parser::strings::{basic_string, literal_string};
 use crate::parser::trivia::{from_utf8_unchecked, ws};
@@ -18,7 +17,7 @@ use crate::RawString;
 // key = simple-key / dotted-key
 // dotted-key = simple-key 1*( dot-sep simple-key )
 pub(crate) fn key(input: &mut Input<'_>) -> ModalResult<Vec<Key>> {
-    let mut key_path = trace(
+    let mut key_path: Vec<Key> = trace(
         "dotted-key",
         separated(
             1..,
@@ -32,14 +31,13 @@ pub(crate) fn key(input: &mut Input<'_>) -> ModalResult<Vec<Key>> {
             }),
             DOT_SEP,
         )
-        .context(StrContext::Label("key"))
-        .try_map(|k: Vec<_>| {
-            // Inserting the key will require recursion down the line
-            RecursionCheck::check_depth(k.len())?;
-            Ok::<_, CustomError>(k)
-        }),
+        .context(StrContext::Label("key")),
     )
     .parse_next(input)?;
+    // Inserting the key will require recursion down the line.
+    // A key that is too long is an error of its own, not a reason to try something else.
+    RecursionCheck::check_depth(key_path.len())
+        .map_err(|err| winnow::error::ErrMode::from_external_error(input, err).cut())?;
 
     let mut leaf_decor = Decor::new("", "");
     {
